@@ -33,6 +33,21 @@ type segConn struct {
 	eof     bool
 	written []byte
 	nread   int
+	holdW   bool // Write blocks (before it copies) until released: a slow socket
+	blockW  int
+}
+
+func (c *segConn) setHoldWrites(b bool) {
+	c.mu.Lock()
+	c.holdW = b
+	c.cond.Broadcast()
+	c.mu.Unlock()
+}
+
+func (c *segConn) writersBlocked() int {
+	c.mu.Lock()
+	defer c.mu.Unlock()
+	return c.blockW
 }
 
 func newSegConn() *segConn {
@@ -74,6 +89,11 @@ func (c *segConn) Read(p []byte) (int, error) {
 func (c *segConn) Write(p []byte) (int, error) {
 	c.mu.Lock()
 	defer c.mu.Unlock()
+	for c.holdW && !c.closed {
+		c.blockW++
+		c.cond.Wait()
+		c.blockW--
+	}
 	if c.closed {
 		return 0, io.ErrClosedPipe
 	}
@@ -197,7 +217,7 @@ func (o *recvOps) Read(r *go9p.SrvReq) {
 	}
 	r.RespondRread(d)
 }
-func (o *recvOps) Write(r *go9p.SrvReq) { r.RespondRwrite(uint32(len(r.Tc.Data))) }
+func (o *recvOps) Write(r *go9p.SrvReq)  { r.RespondRwrite(uint32(len(r.Tc.Data))) }
 func (o *recvOps) Clunk(r *go9p.SrvReq)  { r.RespondRclunk() }
 func (o *recvOps) Remove(r *go9p.SrvReq) { r.RespondRremove() }
 func (o *recvOps) Stat(r *go9p.SrvReq) {
@@ -446,12 +466,12 @@ func modeRecv(tier string, args []string) {
 		nstreams = 120
 	}
 	type job struct {
-		msize         uint32
-		dotu          bool
-		setup         [][]byte
-		stream        []byte
-		segs          [][]byte
-		nframes, bad  int
+		msize        uint32
+		dotu         bool
+		setup        [][]byte
+		stream       []byte
+		segs         [][]byte
+		nframes, bad int
 	}
 	var jobs []job
 	for s := 0; s < nstreams; s++ {
